@@ -36,6 +36,9 @@ Kernels == {
     K("redim",   << "10 DIM A(5):DIM A(5)" >>),
     K("warn",    << "10 PRINT Q;R(1):R(2)=1:Z=1:PRINT Z" >>),
     K("rnd",     << "10 X=RND(1):Y=RND(0):PRINT X=Y;RND(-1)" >>),
+    K("input3",  << "10 INPUT A:INPUT B:PRINT A;B", "20 IF 0 THEN INPUT A$ ELSE INPUT B$", "30 PRINT A$;B$;\"!\"" >>),
+    K("warnmistype", << "10 A(1)=\"X\"", "20 DIM A(20):A(15)=3:PRINT A(15)" >>),
+    K("warnmistype2", << "10 N$(2)=5" >>),
     K("input2",  << "10 IF 1 THEN INPUT X ELSE PRINT \"NO\"", "20 GOSUB 100:PRINT X;S$", "30 IF 0 THEN PRINT 1 ELSE INPUT Q(2):PRINT Q(2)", "40 END",
                     "100 INPUT S$:RETURN" >>)
 }
@@ -53,7 +56,7 @@ ReplySet == { B("5"), B("abc"), B("1,2"), B("") }
 RunOnly == { B("RUN") }
 BreakLines == Inspections \cup Commands0
 EditLines == Edits \cup Probes \cup Commands0 \cup { B("LIST") }
-InputKernels == {k \in Kernels : k.name \in {"input", "input2", "stop"}}
+InputKernels == {k \in Kernels : k.name \in {"input", "input2", "input3", "stop"}}
 
 \* Kernels that drive the caps of C16: frames by GOSUB and by function recursion, 33 FOR
 \* variables, a FOR re-entered by GOTO 40 times, DIM at and beyond 10000 cells, implicit
